@@ -4,7 +4,7 @@
   one (`mergeAdjacentText`), and a structural copy with fresh handles (`copyInto` / `copyKids`),
   the function the edge replay of `clone_node` is proved equal to.
 -/
-import XotModel.Model.Forest
+import XotModel.Model.Manip
 
 namespace XotModel
 
@@ -70,5 +70,49 @@ def copyRoot (cons : Bool) (n : Nat) : HTree → HTree × Nat
       let r := copyKids cons [] (n + 2) ks
       (.node (n + 1) v r.1, r.2)
     | _ => (.node n v [], n + 1)
+
+/-! ### Mutation histories (for the independence clause) -/
+
+/-- A mutating call of the manipulation API, with its node arguments. -/
+inductive EditOp where
+  | append (parent child : Nat)
+  | prepend (parent child : Nat)
+  | insertAfter (ref new : Nat)
+  | insertBefore (ref new : Nat)
+  | detach (node : Nat)
+  | remove (node : Nat)
+  | setText (node : Nat) (s : Str)
+  | setComment (node : Nat) (s : Str)
+  | setPiData (node : Nat) (d : Option Str)
+  | setElementName (node : Nat) (name : Nat)
+
+/-- The node arguments of a call. -/
+def EditOp.args : EditOp → List Nat
+  | .append p c => [p, c]
+  | .prepend p c => [p, c]
+  | .insertAfter r n => [r, n]
+  | .insertBefore r n => [r, n]
+  | .detach n => [n]
+  | .remove n => [n]
+  | .setText n _ => [n]
+  | .setComment n _ => [n]
+  | .setPiData n _ => [n]
+  | .setElementName n _ => [n]
+
+/-- The state after the call (whatever it returned). -/
+def Forest.edit (f : Forest) : EditOp → Forest
+  | .append p c => (f.append p c).1
+  | .prepend p c => (f.prepend p c).1
+  | .insertAfter r n => (f.insertAfter r n).1
+  | .insertBefore r n => (f.insertBefore r n).1
+  | .detach n => (f.detach n).1
+  | .remove n => (f.remove n).1
+  | .setText n s => (f.setText n s).1
+  | .setComment n s => (f.setComment n s).1
+  | .setPiData n d => (f.setPiData n d).1
+  | .setElementName n name => (f.setElementName n name).1
+
+/-- A history of calls. -/
+def Forest.edits (f : Forest) (ops : List EditOp) : Forest := ops.foldl Forest.edit f
 
 end XotModel
